@@ -524,12 +524,31 @@ impl<'a, 'e, 'ast> Visit<'ast> for Rewriter<'a, 'e> {
     fn visit_expr_index(&mut self, i: &'ast syn::ExprIndex) {
         // R6 (abort allowed): MAP[&K] -> *shim_map_index(&MAP, &K)   (only for `x[&k]` shapes)
         if self.abort_allowed {
-            if let syn::Expr::Reference(_) = &*i.index {
-                let (a, b) = self.src.range(i.span());
-                let pieces = vec![Self::lit("(*shim_map_index(&"), self.sub(i.expr.span()), Self::lit(", "), self.sub(i.index.span()), Self::lit("))")];
-                self.ed.replace(a, b, pieces, "R6");
-                self.fire("R6");
+            // R6: `X[a..b]` where an out-of-range slice is a legal abort of the client
+            if let syn::Expr::Range(r) = &*i.index {
+                if matches!(r.limits, syn::RangeLimits::HalfOpen(_)) {
+                    let (a, b) = self.src.range(i.span());
+                    let mut pieces = vec![];
+                    match (&r.start, &r.end) {
+                        (Some(lo), Some(hi)) => { pieces.push(Self::lit("(*shim_subslice(&")); pieces.push(self.sub(i.expr.span())); pieces.push(Self::lit(", ")); pieces.push(self.sub(lo.span())); pieces.push(Self::lit(", ")); pieces.push(self.sub(hi.span())); pieces.push(Self::lit("))")); }
+                        (None, Some(hi)) => { pieces.push(Self::lit("(*shim_subslice(&")); pieces.push(self.sub(i.expr.span())); pieces.push(Self::lit(", 0, ")); pieces.push(self.sub(hi.span())); pieces.push(Self::lit("))")); }
+                        (Some(lo), None) => { pieces.push(Self::lit("(*shim_subslice_from(&")); pieces.push(self.sub(i.expr.span())); pieces.push(Self::lit(", ")); pieces.push(self.sub(lo.span())); pieces.push(Self::lit("))")); }
+                        _ => {}
+                    }
+                    if !pieces.is_empty() {
+                        self.ed.replace(a, b, pieces, "R6");
+                        self.fire("R6");
+                    }
+                }
             }
+        }
+        if let syn::Expr::Reference(_) = &*i.index {
+            // `MAP[&K]`: R6 (abort allowed: a missing key is a legal abort) / R17 (otherwise: key presence is an obligation)
+            let (a, b) = self.src.range(i.span());
+            let f = if self.abort_allowed { "(*shim_map_index(&" } else { "(*shim_map_at(&" };
+            let pieces = vec![Self::lit(f), self.sub(i.expr.span()), Self::lit(", "), self.sub(i.index.span()), Self::lit("))")];
+            self.ed.replace(a, b, pieces, if self.abort_allowed { "R6" } else { "R17" });
+            self.fire(if self.abort_allowed { "R6" } else { "R17" });
         }
         syn::visit::visit_expr_index(self, i);
     }
@@ -691,6 +710,7 @@ struct Ctx {
     rules_fired: BTreeMap<String, usize>,
     unit_props: Vec<String>,
     vacuity: bool,
+    defines: Vec<String>,
 }
 
 impl Ctx {
@@ -998,7 +1018,44 @@ fn process_template(ctx: &mut Ctx, path: &Path, assume: bool, depth: usize) {
     }
     let text = std::fs::read_to_string(path).unwrap_or_else(|e| fail(format!("cannot read template {}: {}", path.display(), e)));
     let tfile = path.file_name().unwrap().to_string_lossy().to_string();
-    let lines: Vec<&str> = text.lines().collect();
+    // conditional sections: //@define N, //@ifdef N, //@ifndef N, //@else, //@endif (line-level preprocessing;
+    // lines that are switched off are replaced by empty lines so that template line numbers stay meaningful)
+    let mut pre: Vec<String> = vec![];
+    {
+        let mut stack: Vec<(bool, bool)> = vec![]; // (active, parent_active)
+        for (n, l) in text.lines().enumerate() {
+            let t = l.trim_start();
+            let active = stack.last().map(|x| x.0).unwrap_or(true);
+            if let Some(r) = t.strip_prefix("//@") {
+                let w: Vec<&str> = r.split_whitespace().collect();
+                match w.first().copied() {
+                    Some("define") if active => { ctx.defines.push(w.get(1).unwrap_or(&"").to_string()); pre.push(String::new()); continue; }
+                    Some("ifdef") | Some("ifndef") => {
+                        let d = ctx.defines.iter().any(|x| Some(&x.as_str()) == w.get(1));
+                        let c = if w[0] == "ifdef" { d } else { !d };
+                        stack.push((active && c, active));
+                        pre.push(String::new());
+                        continue;
+                    }
+                    Some("else") => {
+                        let (a, pa) = stack.pop().unwrap_or_else(|| fail(format!("{}:{}: //@else without //@ifdef", tfile, n + 1)));
+                        stack.push((pa && !a, pa));
+                        pre.push(String::new());
+                        continue;
+                    }
+                    Some("endif") => {
+                        stack.pop().unwrap_or_else(|| fail(format!("{}:{}: //@endif without //@ifdef", tfile, n + 1)));
+                        pre.push(String::new());
+                        continue;
+                    }
+                    _ => {}
+                }
+            }
+            if active { pre.push(l.to_string()); } else { pre.push("//@skip".to_string()); }
+        }
+        if !stack.is_empty() { fail(format!("{}: unterminated //@ifdef", tfile)); }
+    }
+    let lines: Vec<&str> = pre.iter().map(|x| x.as_str()).collect();
     let mut i = 0;
     let mut region_stack: Vec<(String, Vec<String>, usize)> = vec![];
     while i < lines.len() {
@@ -1011,6 +1068,7 @@ fn process_template(ctx: &mut Ctx, path: &Path, assume: bool, depth: usize) {
                 continue;
             }
             match words[0] {
+                "skip" => {}
                 "include" => {
                     let o = Opts::parse(&words[2..]);
                     let sub = ctx.tdir.join(words[1]);
@@ -1142,12 +1200,17 @@ fn process_template(ctx: &mut Ctx, path: &Path, assume: bool, depth: usize) {
                         }
                         let l = lines[j];
                         let lt = l.trim_start();
+                        if lt.starts_with("//@skip") {
+                            j += 1;
+                            continue;
+                        }
                         if let Some(r) = lt.strip_prefix("//@") {
                             let w: Vec<&str> = r.split_whitespace().collect();
                             if let Some(c) = cur.take() {
                                 d.sections.push((c, std::mem::take(&mut buf)));
                             }
                             match w.first().copied() {
+                                Some("skip") => {}
                                 Some("end") => break,
                                 Some("ret") => d.ret = Some(w.get(1).unwrap_or_else(|| fail(format!("{}:{}: //@ret needs a name", tfile, j + 1))).to_string()),
                                 Some(_) => {
@@ -1204,7 +1267,7 @@ fn main() {
     let template = template.unwrap_or_else(|| fail("--template required".into()));
     let out = out.unwrap_or_else(|| fail("--out required".into()));
     let tdir = template.parent().unwrap().to_path_buf();
-    let mut ctx = Ctx { repo, tdir, srcs: BTreeMap::new(), out: String::new(), out_line: 0, regions: vec![], rules_fired: BTreeMap::new(), unit_props: vec![], vacuity };
+    let mut ctx = Ctx { repo, tdir, srcs: BTreeMap::new(), out: String::new(), out_line: 0, regions: vec![], rules_fired: BTreeMap::new(), unit_props: vec![], vacuity, defines: vec![] };
     process_template(&mut ctx, &template, false, 0);
     std::fs::write(&out, &ctx.out).unwrap_or_else(|e| fail(format!("cannot write {}: {}", out.display(), e)));
     let mut probes = vec![];
